@@ -501,3 +501,11 @@ Definition assign_eq_conflict (c : clause) : bool :=
                                            | LCmp OEq _ (TVar y) => N.eqb x y
                                            | _ => false end) (cbody c)
                     | _ => false end) (cbody c).
+
+(* known-finding class 5 (C02): a rule with at least two positive atoms one of which repeats a variable
+   (e(X, X)); with join planning on, the reordered join's projection indexes the wrong column *)
+Fixpoint has_dupN (l : list N) : bool :=
+  match l with [] => false | x :: r => existsb (N.eqb x) r || has_dupN r end.
+Definition repeated_var_join (c : clause) : bool :=
+  let pos := flat_map (fun l => match l with LPos _ args => [args] | _ => [] end) (cbody c) in
+  Nat.leb 2 (length pos) && existsb (fun args => has_dupN (vars_of_terms args)) pos.
